@@ -403,4 +403,29 @@ theorem issuer_blinded_verdict_refines (N : ℕ) (hN : 1 < N) (H : List ByteArra
 
 end blinded_executable
 
+section signature_correctness_executable
+
+/-- **the holder's verdict on ANY signature with its correctness proof does not depend on the
+representation**: prime test, interval of `e`, attribute coverage, `Q == A^e` and the challenge
+comparison of `_check_signature_correctness_proof` give the same outcome computed with integers
+modulo `N` and in the proof group (any subgroup `S` of the units holding the key and `A`) -/
+theorem holder_signature_proof_verdict_refines (N : ℕ) (hN : 1 < N) (S : AddSubgroup (Zn.U N))
+    (H : List ByteArray → ℤ) (isPrime : ℤ → Bool)
+    (pk : PubKey ℤ) (pk' : PubKey S) (hpk : PKRel (Zn.RelS N S) pk pk')
+    (sig : Signature ℤ) (sig' : Signature S) (hs : SigRel (Zn.RelS N S) sig sig')
+    (vals : KValues) (se c : ℤ) (nonce : ByteArray) :
+    checkSignatureCorrectness (Zn.znOps N) H isPrime pk sig vals se c nonce =
+      checkSignatureCorrectness (addOps (Zn.encS N S)) H isPrime pk' sig' vals se c nonce :=
+  checkSignatureCorrectness_rel (Zn.znOps_refines_sub hN S) H isPrime hpk hs vals se c nonce
+
+/-- the issuer's signature-correctness proof `(se, c)` is the same pair in both groups -/
+theorem issuer_signature_proof_refines (N : ℕ) (hN : 1 < N) (S : AddSubgroup (Zn.U N))
+    (H : List ByteArray → ℤ) (a q : ℤ) (a' q' : S) (ha : Zn.RelS N S a a') (hq : Zn.RelS N S q q')
+    (einv r M : ℤ) (nonce : ByteArray) :
+    newSignatureCorrectness (Zn.znOps N) H a q einv r M nonce =
+      newSignatureCorrectness (addOps (Zn.encS N S)) H a' q' einv r M nonce :=
+  newSignatureCorrectness_rel (Zn.znOps_refines_sub hN S) H ha hq einv r M nonce
+
+end signature_correctness_executable
+
 end CL.C05
